@@ -22,7 +22,7 @@ ANCHORS = ["raggedarray/base.py::RaggedBase.ravel", "raggedarray/base.py::Ragged
            "raggedarray/__init__.py::RaggedArray.__array_ufunc__", "raggedarray/__init__.py::RaggedArray.__array_function__", "raggedarray/__init__.py::RaggedArray.__iter__",
            "raggedarray/indexablearray.py::IndexableArray.__setitem__", "raggedarray/base.py::RaggedBase.size"]
 FLOOR_TAGS = ["class:A", "class:B", "plan:everything", "plan:random", "inserted-read-on-lazy", "inserted:meta", "inserted:repr", "inserted:tolist", "inserted:sel", "inserted:sum0",
-              "inserted:ell", "inserted:row", "inserted:maskidx", "class:buffer", "class:runlength", "variant:2d", "variant:ragged", "variant:1d", "layout:contiguous", "layout:strided", "layout:matrix-column", "layout:reversed"]
+              "inserted:ell", "inserted:row", "inserted:maskidx", "class:buffer", "class:runlength", "class:table", "variant:2d", "variant:ragged", "variant:1d", "layout:contiguous", "layout:strided", "layout:matrix-column", "layout:reversed"]
 FLOOR_MONITORS = ["c10:pair", "purity-tap", "global-state"]
 N_RANDOM = {"quick": 3000, "thorough": 100000}
 GLOBAL_STATE_MONITOR = True     # reads must not leak into numpy's print options / error state either
@@ -237,7 +237,96 @@ def gen_rlpurity(rng, tier):
     return {"kind": "rlpurity", "dtype": dtype, "variant": variant, "rows": rows, "reads": reads}
 
 
+def run_table_once(case, reads):
+    lib = CTX.lib
+    keys = np.array(case["keys"], dtype=case["kdtype"])
+    init = case["init"] if not isinstance(case["init"], list) else np.array(case["init"], dtype=case["vdtype"])
+    t = (lib.Counter if case.get("cls") == "Counter" else lib.HashTable)(keys, init)
+    out = []
+
+    def read(nm, arg):
+        if nm == "getv":
+            return np.asarray(t[np.array(arg, dtype=case["kdtype"])]).tolist()
+        if nm == "get1":
+            return np.asarray(t[np.dtype(case["kdtype"]).type(arg)]).tolist()
+        if nm == "contains":
+            return np.asarray(t.contains(np.array(arg, dtype=case["kdtype"]))).tolist()
+        if nm == "format":
+            return len(repr(t)) > 0 and len(str(t)) > 0
+        if nm == "eqself":
+            return bool(t == t)
+        raise ValueError(nm)
+
+    def do_reads(pos):
+        for nm, arg in reads.get(pos, ()):
+            attempt(read, nm, arg)
+    do_reads(-1)
+    for si, st in enumerate(case["steps"]):
+        if st[0] == "fill":
+            t.fill(st[1])
+        elif st[0] == "set":
+            t[np.array(st[1], dtype=case["kdtype"])] = st[2]
+        elif st[0] == "items":
+            o = attempt(lambda: sorted((int(k), float(v)) for k, v in t.items()))
+            out.append((si, o.value if o.ok else "raised"))
+        else:
+            o = attempt(read, st[0], st[1])
+            out.append((si, o.value if o.ok else "raised %s" % type(o.exc).__name__))
+        do_reads(si)
+    return out
+
+
+def run_table(case):
+    """history pairs over a HashTable / Counter: look-ups, membership tests and printing inserted anywhere change no later outcome"""
+    tags = ["class:table", "init:" + ("array" if isinstance(case["init"], list) else "scalar")]
+    CTX.tick("c10:pair")
+    base = attempt(run_table_once, case, {})
+    if not base.ok:
+        return undefined("the table history is not executable: %r" % (base,), tags)
+    for plan in case["plans"]:
+        rp = {int(k): [tuple(r) for r in v] for k, v in plan.items()}
+        for reads in rp.values():
+            for nm, _ in reads:
+                tags.append("inserted:" + nm)
+        withr = attempt(run_table_once, case, rp)
+        if not withr.ok or not deep_same(base.value, withr.value):
+            return violated("table over keys %s, initial value %s, history %s: the results are %s without and %s with the inserted reads %s" % (
+                short(case["keys"], 80), short(case["init"], 60), short(case["steps"], 300), short(base.value, 200), repr(withr) if not withr.ok else short(withr.value, 200), short(rp, 200)),
+                sorted(set(tags)) + ["table-read-changes-outcome"])
+    return held(sorted(set(tags)), True)
+
+
+def gen_table_case(rng, tier):
+    nk = rng.randint(1, 8)
+    keys = rng.sample(range(0, 60), nk)
+    kd = rng.choice(["int64", "int32", "uint8"])
+    scalar = rng.random() < 0.6
+    vdtype = rng.choice(["int64", "float64"])
+    init = rng.choice([0, 5, 2.5, 1]) if scalar else [rng.randint(0, 9) for _ in keys]
+
+    def a_read():
+        nm = rng.choice(["getv", "get1", "contains", "format", "eqself", "getv"])
+        arg = [rng.choice(keys) for _ in range(rng.randint(1, 4))] if nm == "getv" else (rng.choice(keys) if nm == "get1" else ([rng.choice(keys), 61, rng.choice(keys)] if nm == "contains" else None))
+        return [nm, arg]
+    steps = []
+    for _ in range(rng.randint(2, 7)):
+        u = rng.random()
+        if u < 0.3:
+            steps.append(["fill", rng.choice([2.5, 7, 0.25, 1000, -1.5])])
+        elif u < 0.5:
+            steps.append(["set", [rng.choice(keys)], rng.choice([3, 4.5, 100, 0.75])])
+        elif u < 0.6:
+            steps.append(["items", None])
+        else:
+            steps.append(a_read())
+    steps.append(["getv", list(keys)])
+    plans = [{str(si): [a_read()] for si in range(-1, len(steps))}] + [{str(si): [a_read()] for si in rng.sample(range(-1, len(steps)), 1)} for _ in range(2)]
+    return {"kind": "table", "keys": keys, "kdtype": kd, "init": init, "vdtype": vdtype, "steps": steps, "plans": plans, "cls": "Counter" if (rng.random() < 0.15 and not isinstance(init, float)) else "HashTable"}
+
+
 def run(case):
+    if case.get("kind") == "table":
+        return run_table(case)
     if case.get("kind") == "rlpurity":
         return run_rlpurity(case)
     if case.get("kind") == "buffer":
@@ -397,6 +486,8 @@ def directed():
         yield gen_buffer_case(rng, "quick")
     for _ in range(400):
         yield gen_rlpurity(rng, "quick")
+    for _ in range(500):
+        yield gen_table_case(rng, "quick")
     for _ in range(250):
         yield with_plans(rng, prog.gen_program(rng, "quick"))
     for _ in range(120):
@@ -409,6 +500,8 @@ def directed():
 
 def random_case(rng, tier):
     if rng.random() < 0.1:
+        return gen_table_case(rng, tier)
+    if rng.random() < 0.1:
         return gen_rlpurity(rng, tier)
     if rng.random() < 0.12:
         return gen_buffer_case(rng, tier)
@@ -416,7 +509,7 @@ def random_case(rng, tier):
 
 
 def classify(case, res):
-    if case.get("kind") in ("buffer", "rlpurity"):
+    if case.get("kind") in ("buffer", "rlpurity", "table"):
         return None
     if case.get("hazard") and any(t in ("final-differs", "raise-differs") or t.startswith("obs-differs") for t in res["tags"]):
         return "F10"
